@@ -53,8 +53,9 @@ KNOWN = {
     'C05-icu-encode-throw-overread': {'lane': 'scalar', 'tc': 'ISO-8859-2', 'cp': '3042'},
     'C05-icu-decode-substitutes-illegal': {'lane': 'raw-expect', 'tc': 'gb18030', 'op': 'from', 'src': '81308120', 'expect_exc': True},
     'C05-icu-encode-small-buffer-throw': {'lane': 'split', 'tc': 'Shift_JIS', 'dir': 'to', 'cps': '3042,3044,41', 'tail': '0', 'm': '1', 'k': '3'},
+    'C05-icu-encode-small-buffer-throw#tostr': {'lane': 'split', 'tc': 'gb18030', 'dir': 'to', 'cps': '80,80,80', 'tail': '0'},
 }
-SKIP = ','.join(sorted(KNOWN))
+SKIP = ','.join(sorted(k for k in KNOWN if '#' not in k))
 
 # ------------------------------------------------------------------------------------------------
 # third witness: python codecs against the ICU tables reported by the harness
@@ -119,7 +120,11 @@ def merge_summary(text, st_, base_case):
             if int(p[1]): st_.extra['harness_failing_items'] = st_.extra.get('harness_failing_items', 0) + int(p[1])
     return fails
 
+ONLY = [x for x in os.environ.get('C05_ONLY', '').split(',') if x]     # development aid: restrict to some lanes (e.g. "utf8,split,doc")
 def lane_plan(tier):
+    plan = _lane_plan(tier)
+    return [p for p in plan if not ONLY or p[0] in ONLY or (p[0] + ':' + p[1]) in ONLY]
+def _lane_plan(tier):
     plan = []
     for tc in TCS: plan.append(('scalar', tc, {}))
     plan.append(('utf8', 'UTF-8', {'part': '123'})); plan.append(('utf8', 'UTF-8', {'part': '4'}))
@@ -189,12 +194,12 @@ DOC_ENC = {
     'UTF-8':        dict(codec='utf-8', fam='utf8', names=['UTF-8', 'utf-8', 'UTF8', 'Utf-8']),
     'UTF-16LE':     dict(codec='utf-16-le', fam='utf16', names=['UTF-16LE', 'utf-16le']),
     'UTF-16BE':     dict(codec='utf-16-be', fam='utf16', names=['UTF-16BE', 'utf-16be']),
-    'UCS-4LE':      dict(codec='utf-32-le', fam='ucs4', names=['UCS-4LE', 'UCS4LE', 'ucs-4le']),
-    'UCS-4BE':      dict(codec='utf-32-be', fam='ucs4', names=['UCS-4BE', 'UCS4BE', 'ucs-4be']),
+    'UCS-4LE':      dict(codec='utf-32-le', fam='ucs4', names=['UCS-4LE', 'ucs-4le']),
+    'UCS-4BE':      dict(codec='utf-32-be', fam='ucs4', names=['UCS-4BE', 'ucs-4be']),
     'ISO-8859-1':   dict(codec='latin-1', fam='ascii', names=['ISO-8859-1', 'iso-8859-1', 'ISO8859-1', 'LATIN1', 'L1', 'IBM819', 'CP819', 'ISO_8859-1', 'ISO-IR-100', 'LATIN-1']),
     'US-ASCII':     dict(codec='ascii', fam='ascii', names=['US-ASCII', 'us-ascii', 'USASCII', 'ASCII', 'US_ASCII']),
     'WINDOWS-1252': dict(codec='cp1252', fam='ascii', names=['WINDOWS-1252', 'windows-1252']),
-    'IBM037':       dict(codec='cp037', fam='ebcdic', names=['IBM037', 'ibm037', 'EBCDIC-CP-US', 'ebcdic-cp-us', 'IBM037-S390']),
+    'IBM037':       dict(codec='cp037', fam='ebcdic', names=['IBM037', 'ibm037', 'EBCDIC-CP-US', 'ebcdic-cp-us']),
     'IBM1140':      dict(codec='cp1140', fam='ebcdic', names=['IBM1140', 'IBM01140', 'CCSID01140', 'CP01140', 'ibm1140']),
     'IBM1047':      dict(codec=None, fam='ebcdic', names=['IBM1047', 'ibm1047', 'IBM-1047']),
     'ISO-8859-2':   dict(codec='iso8859-2', fam='ascii', names=['ISO-8859-2', 'iso-8859-2']),
@@ -260,21 +265,21 @@ def doc_strategy(draw, tables):
     bom = draw(st.booleans()) if enc in BOMS else False
     variant = draw(st.sampled_from(['match', 'match', 'absent', 'contra', 'nodecl-ebcdic']))
     api = draw(st.sampled_from(['sax2', 'dom', 'sax1']))
+    # auto-detection without a declaration is specified only for UTF-8 (with or without BOM) and UTF-16 with BOM
+    if variant == 'absent' and not (enc == 'UTF-8' or fam == 'utf16'): variant = 'match'
+    if variant == 'nodecl-ebcdic' and fam != 'ebcdic': variant = 'match'
     declname = None; expect = 'same'
-    if variant == 'match':
+    if variant == 'absent':
+        if fam == 'utf16': bom = True
+    elif variant == 'match':
         if fam == 'utf16' and bom: declname = draw(st.sampled_from(['UTF-16', 'utf-16']))
+        elif fam == 'ucs4': declname = draw(st.sampled_from(info['names'] + ['UCS-4', 'UCS4', 'UTF-32', 'ISO-10646-UCS-4', 'ucs-4']))
         else: declname = draw(st.sampled_from(info['names']))
-    elif variant == 'absent':
-        # auto-detection is specified only for UTF-8 (with or without BOM) and UTF-16 with BOM
-        if enc == 'UTF-8' or (fam == 'utf16' and bom): declname = None
-        else: declname = draw(st.sampled_from(info['names'])) if not (fam == 'utf16' and bom) else 'UTF-16'
     elif variant == 'contra':
-        if fam == 'utf16' and not bom: bom = True
-        if fam == 'ucs4': bom = draw(st.booleans())
+        if fam == 'utf16': bom = True
         declname = draw(st.sampled_from(CONTRA[fam])); expect = 'error'
     else:
-        if fam == 'ebcdic': declname = None; expect = 'error'
-        else: declname = draw(st.sampled_from(info['names'])) if not (fam == 'utf16' and bom) else 'UTF-16'
+        declname = None; expect = 'error'; bom = False
     return dict(enc=enc, bom=bom, declname=declname, expect=expect, body=body, api=api)
 
 def encode_text(text, enc, tables):
@@ -361,6 +366,10 @@ def worker(ctx):
         if py is not None: case['py'] = py.hex().upper()
         status, text = run_item(case, ex, xb)
         if status == 'DROP': st_.labels['split:dropped(' + text.split(' ')[0][:40] + ')'] += 1; return
+        if status == 'SKIP': st_.excluded_known[text.strip()] += 1; return
+        for l in text.split('\n')[1:]:
+            q = l.split('\t')
+            if q[0] == 'EXCL' and len(q) == 3: st_.excluded_known[q[1]] += int(q[2])
         if status == 'DISAGREE':
             st_.oracle_disagreements += 1; st_.extra.setdefault('disagreement_samples', [])
             if len(st_.extra['disagreement_samples']) < 5: st_.extra['disagreement_samples'].append(tc + ' ' + text[:200])
@@ -378,7 +387,7 @@ def worker(ctx):
             case.update({k: v for k, v in d.items() if k in ('m', 'k', 'src')})
             raise PropertyFailure(case, '%s: %s' % (status, why))
     nsplit = ctx.budget * 2 // 3
-    hyp_run(ctx, split_strategy(combos, tables), prop_split, nsplit, batches=4, seed_salt=1)
+    if not ONLY or 'split' in ONLY: hyp_run(ctx, split_strategy(combos, tables), prop_split, nsplit, batches=4, seed_salt=1)
     # ---- 3. document level (extension)
     exd = ctx.executor('xvexec')
     def prop_doc(d):
@@ -390,7 +399,7 @@ def worker(ctx):
         st_.note(h, nt, ['doc:' + d['enc'], 'doc:bom=%d' % d['bom'], 'doc:decl=' + ('absent' if d['declname'] is None else 'contradictory' if d['expect'] == 'error' else 'matching'), 'doc:api=' + d['api']])
         ok, detail = run_doc(case, exd)
         if not ok: raise PropertyFailure(case, detail)
-    hyp_run(ctx, doc_strategy(tables), prop_doc, ctx.budget - nsplit, batches=4, seed_salt=2)
+    if not ONLY or 'doc' in ONLY: hyp_run(ctx, doc_strategy(tables), prop_doc, ctx.budget - nsplit, batches=4, seed_salt=2)
     st_.extra['distinct_nontrivial'] = st_.extra.get('enumerated_nontrivial', 0) + len(nontriv_local)
     # ---- 4. witnesses of the known findings: still failing on this tree?
     if ctx.worker == 0:
